@@ -3,6 +3,8 @@
 package store
 
 import (
+	"errors"
+
 	"github.com/tinode/chat/server/db"
 	"github.com/tinode/chat/server/store/types"
 )
@@ -91,3 +93,81 @@ func harnessC04StoreDelLog(perEntry []int) {
 func Harness_C04_store_dellog_1x1x1() { harnessC04StoreDelLog([]int{1, 1, 1}) }
 func Harness_C04_store_dellog_2x1()   { harnessC04StoreDelLog([]int{2, 1}) }
 func Harness_C04_store_dellog_2x2()   { harnessC04StoreDelLog([]int{2, 2}) }
+
+// C04 (delete-transaction numbers, store boundary): the real messagesMapper.DeleteList - for a soft deletion (for
+// one user) and for a hard one alike - logs the transaction under the given number and raises the topic row's
+// delete counter to it (a reloaded topic continues numbering from that row: a number not recorded there would
+// be issued twice), and records it on the subscription(s). Any failing adapter call is reported.
+type verifAdpDelW struct {
+	adapter.Adapter
+	failAt, calls int
+	logged        *types.DelMessage
+	topicDelID    int
+	subUser       types.Uid
+	subDelID      int
+	subUpdates    int
+}
+
+func (a *verifAdpDelW) fault() error {
+	i := a.calls
+	a.calls++
+	if i == a.failAt {
+		return verifErrDelW
+	}
+	return nil
+}
+
+var verifErrDelW = errors.New("verif: injected adapter fault")
+
+func (a *verifAdpDelW) MessageDeleteList(topic string, toDel *types.DelMessage) error {
+	if err := a.fault(); err != nil {
+		return err
+	}
+	a.logged = toDel
+	return nil
+}
+func (a *verifAdpDelW) TopicUpdate(topic string, update map[string]any) error {
+	if err := a.fault(); err != nil {
+		return err
+	}
+	if v, ok := update["DelId"].(int); ok {
+		a.topicDelID = v
+	}
+	return nil
+}
+func (a *verifAdpDelW) SubsUpdate(topic string, user types.Uid, update map[string]any) error {
+	if err := a.fault(); err != nil {
+		return err
+	}
+	a.subUpdates++
+	a.subUser = user
+	if v, ok := update["DelId"].(int); ok {
+		a.subDelID = v
+	}
+	return nil
+}
+
+func Harness_C04_store_delete_numbering() {
+	a := &verifAdpDelW{failAt: verifChoose("failAt", 4) - 1}
+	adp = a
+	uGen.Init(1, []byte("0123456789abcdef"))
+	prev := verifNondetInt("storedDelId")
+	verifAssume(prev >= 0 && prev < 1<<30)
+	a.topicDelID = prev
+	delID := prev + 1
+	forUser := types.ZeroUid // hard deletion
+	if verifNondetBool("soft") {
+		forUser = types.Uid(7)
+	}
+	err := Messages.DeleteList("grpAAAAAAAAAAB", delID, forUser, []types.Range{{Low: 3, Hi: 6}})
+	if a.failAt >= 0 && a.failAt < a.calls {
+		verifAssert(err != nil, "failed-write-is-reported")
+	} else {
+		verifAssert(err == nil, "deletion-recorded")
+		verifAssert(a.logged != nil && a.logged.DelId == delID && a.logged.DeletedFor == forUser.String() && len(a.logged.SeqIdRanges) == 1, "transaction-logged-under-its-number")
+		verifAssert(a.topicDelID == delID, "topic-row-carries-the-latest-delete-transaction-number")
+		verifAssert(a.subUpdates == 1 && a.subUser == forUser && a.subDelID == delID, "subscriptions-carry-the-delete-transaction-number")
+	}
+	verifAssert(a.topicDelID >= prev, "delete-counter-never-decreases")
+	verifReach("end")
+}
